@@ -276,7 +276,55 @@ def h_cli_ids_head(nr, nc):
     prove('head-cmd:values', and_(*eqs), n=n, m=m)
 
 
-HARNESSES = {'summaries': h_summaries, 'stats': h_stats, 'report': h_report, 'cli_ids_head': h_cli_ids_head}
+def h_dataframe(nr, nc, dense):
+    """to_dataframe / metadata_to_dataframe: what is handed to pandas (recorder in symbolic runs, the real frame in replays)"""
+    import numpy as np
+    b = B()
+    t, a = make_table(nr, nc, md='both', zeros=1, type_='OTU table')
+    df, e = call(lambda: t.to_dataframe(dense=dense))
+    sig = dict(dense=int(dense))
+    if e is not None:
+        fail('dataframe:raised', repr(e)[:150], **sig)
+        return
+    if b.mode == 'sym':
+        idx, cols = [str(x) for x in df.index], [str(x) for x in df.columns]
+        mat = [list(r) for r in df.data] if dense else dense_terms(df.data)
+        if (df.kind == 'dense') != dense:
+            fail('dataframe:kind', df.kind, **sig)
+    else:
+        idx, cols = [str(x) for x in df.index], [str(x) for x in df.columns]
+        mat = np.asarray(df, dtype=float).tolist()
+    if idx != a.obs_ids or cols != a.samp_ids:
+        fail('dataframe:labels', f"{idx} / {cols}", **sig)
+        return
+    prove('dataframe:values', cells_equal(mat, a.dense), **sig)
+    same_table('dataframe:input-unchanged', observe(t), a, **sig)
+    for ax in ('observation', 'sample'):
+        mdf, e = call(lambda: t.metadata_to_dataframe(ax))
+        if e is not None:
+            fail('metadata-dataframe:raised', repr(e)[:150], axis=ax)
+            continue
+        md = a.md(ax)
+        want_cols, want_rows = [], []
+        for k, v in md[0].items():
+            if isinstance(v, (list, tuple)):
+                want_cols += ['%s_%d' % (k, q) for q in range(len(v))]
+            else:
+                want_cols.append(k)
+        for m in md:
+            row = []
+            for k, v in m.items():
+                row += list(v) if isinstance(v, (list, tuple)) else [v]
+            want_rows.append(row)
+        if b.mode == 'sym':
+            got_cols, got_rows, got_idx = list(mdf.columns), [list(r) for r in mdf.data], [str(x) for x in mdf.index]
+        else:
+            got_cols, got_rows, got_idx = list(mdf.columns), mdf.values.tolist(), [str(x) for x in mdf.index]
+        if got_idx != a.ids(ax) or got_cols != want_cols or [[str(x) for x in r] for r in got_rows] != [[str(x) for x in r] for r in want_rows]:
+            fail('metadata-dataframe:content', f"{ax}: {got_cols} {got_rows}", axis=ax)
+
+
+HARNESSES = {'dataframe': h_dataframe, 'summaries': h_summaries, 'stats': h_stats, 'report': h_report, 'cli_ids_head': h_cli_ids_head}
 
 
 def jobs(tier):
@@ -290,6 +338,8 @@ def jobs(tier):
             for o in (False, True):
                 out.append(('report', (nr, nc, q, o)))
         out.append(('cli_ids_head', (nr, nc)))
+        for d in (True, False):
+            out.append(('dataframe', (nr, nc, d)))
     return out
 
 
@@ -298,14 +348,14 @@ OPTS = {'quick': {'time_budget': 70}, 'thorough': {'time_budget': 900}}
 META = {
     'explanation': "C19: sum / min / max / nonzero_counts / density / reduce / nonzero, util.compute_counts_per_sample_stats and every figure and "
                    "listed ID of the summarize-table report (quantitative, qualitative, per-observation; number holes compared by their terms before "
-                   "formatting, detail lines in value order) and the table-ids / head command callbacks, on every representation state of non-square "
+                   "formatting, detail lines in value order) and the table-ids / head command callbacks, and what to_dataframe / metadata_to_dataframe hand to pandas, on every representation state of non-square "
                    "tables, with the accessors asked in different orders.",
     'encoded': {'biom/table.py': ['sum', 'min', 'max', 'nonzero_counts', 'get_table_density', 'reduce', 'nonzero', 'iter_data', 'head',
                                   'delimited_self', 'transpose'],
                 'biom/util.py': ['compute_counts_per_sample_stats'], 'biom/cli/table_summarizer.py': ['_summarize_table'],
                 'biom/cli/table_ids.py': ['summarize_table'], 'biom/cli/table_head.py': ['head']},
     'bounds': {'quick': {'shapes': '2x3, 2x2 (<=1 explicit zero)'}, 'thorough': {'shapes': '2x3, 3x2, 2x2, 3x3'}},
-    'outside': ['to_dataframe / metadata_to_dataframe / export-metadata (pandas C internals: not encodable by this technique)', 'numpy.std (opaque hole)',
+    'outside': ['what pandas does with the matrix / labels / rows it is handed (to_dataframe and metadata_to_dataframe are checked up to the pandas call; a recorder stands in for pandas in symbolic runs)', 'export-metadata (to_csv)', 'numpy.std (opaque hole)',
                 'rounding performed by %1.3f / %d rendering (figures are compared as terms before formatting)', 'click option parsing and real files'],
     'assumptions': ['locale.format_string and % formatting yield one token per number (symbolic text holes)', 'numpy min/max/mean/median = their textbook definitions'],
 }
